@@ -1,4 +1,4 @@
 From Coq Require Import Extraction ExtrOcamlBasic ExtrOcamlString.
-From Verif Require Import GenUnits.
+From Verif Require Import GenMeta.
 Extraction Language OCaml.
-Extraction "gen_units.ml" GenUnits.cases_all.
+Extraction "gen_meta.ml" GenMeta.cases.
